@@ -76,3 +76,10 @@ pub fn file_block(kind: &str, lines: &[String]) -> String {
     }
     s
 }
+
+/// Forget all enumeration cursors.  A panic inside `Ddnnf::enumerate` while the cursor lock is held
+/// poisons the process-global mutex; the reset must not take the harness down with it (the
+/// poisoned lock shows up as PANIC answers of every later enumeration, which the oracles report).
+pub fn reset_cursor() {
+    let _ = guarded(ddnnife::ddnnf::anomalies::config_creation::verif::reset_enumeration_cache);
+}
